@@ -95,3 +95,14 @@ Theorem c16_capabilities_union :
     NoDup (required_caps mods).
 Proof. exact capabilities_union_full. Qed.
 Print Assumptions c16_capabilities_union.
+
+(* Not a conjunct of the property text; it accounts for model branches the correspondence can
+   never reach: on a diagram assembled through connect the executor's per-wire runtime
+   type / integrity checks never fire and no wire names a missing port (connect and
+   _coerce_output already guarantee what those checks test). *)
+Theorem c16_runtime_wire_checks_never_fire :
+  forall mods attempts handlers enforce ext out calls e,
+    execute mods (build mods attempts) handlers enforce ext = (out, calls) ->
+    out = Raised e -> dead_err e = false.
+Proof. exact runtime_wire_checks_dead_proof. Qed.
+Print Assumptions c16_runtime_wire_checks_never_fire.
